@@ -8,7 +8,7 @@
 
 use simcore::driver::{case_text, Replay};
 use simcore::emit::{builder_module, layout_module, main_rs, shard_cargo_toml, workspace_cargo_toml, ShardMember};
-use simcore::layout::{gen_layout, gen_probes, is_native, storage_bits, GenOpts, Layout};
+use simcore::layout::{gen_default_probes, gen_layout, gen_mismatch_probes, gen_probes, is_native, storage_bits, GenOpts, Layout};
 use simcore::prng::{mix, Rng, TAG_LAYOUT, TAG_PROBE};
 use simcore::shrink::{reduce_layout, referenced_fields};
 use std::fs;
@@ -47,17 +47,40 @@ pub fn layout_for(prop: &str, seed: u64, k: u32) -> Layout {
 const QUICK_PROBE_WIDTHS: [u32; 12] = [7, 9, 15, 17, 24, 31, 33, 48, 63, 65, 100, 127];
 pub const PROBE_ID_BASE: u32 = 1_000_000;
 
-fn probes_for(seed: u64, which: &str) -> Vec<Layout> {
-    let widths: Vec<u32> = match which {
-        "none" => vec![],
-        "quick" => QUICK_PROBE_WIDTHS.to_vec(),
-        _ => (1..=127).filter(|&n| !is_native(n) && storage_bits(n) > n).collect(),
-    };
+pub const MISMATCH_ID_BASE: u32 = 2_000_000;
+pub const DEFAULT_ID_BASE: u32 = 3_000_000;
+const TAG_MISMATCH: u64 = 0x4d49_534d;
+const TAG_DEFAULT: u64 = 0x4445_4641;
+
+fn probes_for(prop: &str, seed: u64, which: &str) -> Vec<Layout> {
     let mut out = Vec::new();
-    for n in widths {
-        let mut rng = Rng::new(mix(&[seed, TAG_PROBE, n as u64]));
-        let first = PROBE_ID_BASE + n * 100;
-        out.extend(gen_probes(&mut rng, n, first));
+    if which == "none" {
+        return out;
+    }
+    let arb_all: Vec<u32> = (1..=127).filter(|&n| !is_native(n) && storage_bits(n) > n).collect();
+    if prop == "C11" {
+        let widths: Vec<u32> = if which == "quick" { QUICK_PROBE_WIDTHS.to_vec() } else { arb_all.clone() };
+        for &n in &widths {
+            // class B: declarations addressing bits >= N
+            let mut rng = Rng::new(mix(&[seed, TAG_PROBE, n as u64]));
+            out.extend(gen_probes(&mut rng, n, PROBE_ID_BASE + n * 100));
+            // class C: write-only custom type wider than its field, placed at the top of the base
+            let mut rng = Rng::new(mix(&[seed, TAG_MISMATCH, 11, n as u64]));
+            out.extend(gen_mismatch_probes(&mut rng, n, MISMATCH_ID_BASE + n * 100, true));
+            // class D: default with bits >= N
+            let mut rng = Rng::new(mix(&[seed, TAG_DEFAULT, n as u64]));
+            out.extend(gen_default_probes(&mut rng, n, DEFAULT_ID_BASE + n * 100));
+        }
+    } else {
+        let widths: Vec<u32> = if which == "quick" {
+            vec![8, 16, 32, 64, 128, 7, 14, 24, 50, 100, 127]
+        } else {
+            (3..=128).filter(|&n| is_native(n) || n % 2 == 1 || n % 8 == 2).collect()
+        };
+        for &n in &widths {
+            let mut rng = Rng::new(mix(&[seed, TAG_MISMATCH, 12, n as u64]));
+            out.extend(gen_mismatch_probes(&mut rng, n, MISMATCH_ID_BASE + n * 100, false));
+        }
     }
     out
 }
@@ -110,8 +133,17 @@ fn cmd_shards(args: &[String]) {
         write_shard(&out.join(&name), &name, ls, &members, &repo, &simcore, true);
         names.push(name);
     }
-    if prop == "C11" {
-        let probes = probes_for(seed, &probe_widths);
+    let mut classes: std::collections::BTreeMap<String, String> = std::collections::BTreeMap::new();
+    for ls in &shards {
+        for l in ls {
+            classes.insert(l.id.to_string(), l.class.clone());
+        }
+    }
+    {
+        let probes = probes_for(&prop, seed, &probe_widths);
+        for l in &probes {
+            classes.insert(l.id.to_string(), l.class.clone());
+        }
         // probes live in their own shards: most of them are expected to be rejected by a correct
         // macro, and only these shards then need a second build
         let per = 120usize;
@@ -123,6 +155,7 @@ fn cmd_shards(args: &[String]) {
         }
     }
     fs::write(out.join("Cargo.toml"), workspace_cargo_toml(&names)).expect("write");
+    fs::write(out.join("classes.json"), serde_json::to_string(&classes).unwrap()).expect("write");
     fs::create_dir_all(out.join(".cargo")).expect("mkdir");
     fs::write(out.join(".cargo/config.toml"), "[net]\noffline = true\n").expect("write");
     println!("{}", serde_json::json!({ "shards": names }));
@@ -200,7 +233,7 @@ fn cmd_describe(args: &[String]) {
     let seed: u64 = need(args, "--seed").parse().expect("seed");
     let k: u32 = need(args, "--layout").parse().expect("layout");
     let l = if k >= PROBE_ID_BASE {
-        probes_for(seed, "all").into_iter().find(|p| p.id == k).expect("no such probe")
+        probes_for(&prop, seed, "all").into_iter().find(|p| p.id == k).expect("no such probe")
     } else {
         layout_for(&prop, seed, k)
     };
